@@ -103,6 +103,9 @@ impl Property for C26 {
             if out.equals_m_errors {
                 add("stat.errors_equal_model_M", 1);
             }
+            if out.rekeyed {
+                add("perturb.executed_again_under_other_hash_keys", 1);
+            }
             for (k, v) in &out.model_rows {
                 add(&format!("model_row.{k}"), *v);
             }
